@@ -407,7 +407,7 @@ pub fn run_bfs_all(tier: Tier, budget: &Budget, coll: &Collector, c15_too: bool)
     let mut samples = vec![];
     let mut all_complete = true;
     for p in plans(tier) {
-        let r = bfs(p.m, p.cache, p.depth, tier.pick(1_500_000, 12_000_000), p.rich, budget, coll, c15_too);
+        let r = bfs(p.m, p.cache, p.depth, tier.pick(1_500_000, 4_000_000), p.rich, budget, coll, c15_too);
         states += r.states;
         transitions += r.transitions;
         if r.capped || r.depth_completed < p.depth {
